@@ -125,6 +125,68 @@ def fill_scenarios(rng, quick):
     return execs
 
 
+def fill_structure_scenarios(rng, quick):
+    """pixman_fill / pixman_blt along the structure of the fill code: for every depth x stride (1..3 words and a large
+       one) x x in {0, 1, word boundary -1/0/+1} x width {ending at each of the last 10 positions of the scanline, the
+       whole scanline, 0..3, word boundary -1/0/+1} x height {1, 2, 3} x positive / negative stride, with a guard row above
+       and below and guard bytes around.  ("Complete scanlines are contiguous" and the per-row head/tail steps are where
+       the implementations special-case.)"""
+    execs = []
+    k = 0
+    for bpp in (1, 8, 16, 32, 4, 24):
+        supported = bpp in (1, 8, 16, 32)
+        for sw in ((1, 2, 3, 9) if supported else (2,)):
+            P = (32 * sw) // bpp                       # pixels per scanline
+            wb = max(1, 32 // bpp)                     # pixels per 32-bit word
+            for neg in (False, True):
+                xs = sorted(set(x for x in (0, 1, wb - 1, wb, wb + 1) if 0 <= x < P))
+                if neg or not supported:
+                    xs = [x for x in xs if x <= 1]
+                for x in xs:
+                    ends = set(range(max(x, P - 9), P + 1))             # x + w: the last byte / word of the scanline
+                    ws = set(e - x for e in ends) | {0, 1, 2, 3} | {wb - 1, wb, wb + 1} | {2 * wb - x, 2 * wb - x + 1}
+                    ws = sorted(w for w in ws if 0 <= w and x + w <= P)
+                    if quick and x > 1:
+                        ws = [w for w in ws if x + w >= P - 9 or w <= 1]
+                    rows = 5
+                    base = rng.choice([16, 20, 24, 28])
+                    dlen = base + rows * sw * 4 + 16
+                    boff = base + (rows - 1) * sw * 4 if neg else base
+                    stride = -sw if neg else sw
+                    lines = ["R fs%d_%d_%s_x%d_%d" % (bpp, sw, "n" if neg else "p", x, k), "B %d %d %d" % (dlen, dlen, rng.randrange(1 << 30))]
+                    k += 1
+                    n = 0
+                    for w in ws:
+                        for h in ((1, 2, 3) if (x <= 1 or not quick) else (2,)):
+                            v = rng.getrandbits(32) | (rng.getrandbits(1))
+                            if bpp == 1:
+                                v = rng.getrandbits(1)
+                            lines.append("fill %d %d %d %d %d %d %d %d %d" % (bpp, stride, boff, x, 1, w, h, v >> 16, v & 0xffff))
+                            n += 1
+                            if n % 24 == 0:          # fresh random contents, so that a stray write stays visible
+                                lines.append("B %d %d %d" % (dlen, dlen, rng.randrange(1 << 30)))
+                    execs.append(lines)
+                    # blt between buffers of the same geometry (rows contiguous on both sides) and with a wider source
+                    if bpp in (16, 32) or (bpp == 8 and sw == 2 and not neg):
+                        lines = ["R bs%d_%d_%s_x%d_%d" % (bpp, sw, "n" if neg else "p", x, k), "B %d %d %d" % (dlen, dlen + 5 * 8, rng.randrange(1 << 30))]
+                        k += 1
+                        n = 0
+                        for w in ws:
+                            if quick and not (x + w >= P - 3 or w <= 1):
+                                continue
+                            for h in (1, 2, 3):
+                                for ssw, sx in ((sw, x), (sw, 0), (sw + 2, 1)):
+                                    if sx + w > (32 * ssw) // bpp or (quick and ssw != sw and h == 1):
+                                        continue
+                                    lines.append("blt %d %d %d %d %d %d %d %d %d %d %d %d" %
+                                                 (bpp, bpp, ssw, stride, base, boff, sx, 1, x, 1, w, h))
+                                    n += 1
+                                    if n % 24 == 0:
+                                        lines.append("B %d %d %d" % (dlen, dlen + 5 * 8, rng.randrange(1 << 30)))
+                        execs.append(lines)
+    return execs
+
+
 def colour(rng):
     c = [rng.choice(CHANVALS) for _ in range(4)]
     r = rng.random()
@@ -1031,9 +1093,13 @@ def run(prop, args):
                                                         ["a8r8g8b8", "x8r8g8b8", "b8g8r8a8", "r5g6b5", "a8", "a1", "r8g8b8", "a4"]))
         chk.extra["directed_alpha_matrix_executions"] = len(am)
         execs += am
+        # structural sweep of fill / blt (depth x stride x x x width x height x stride sign): under every chain that has
+        # a fill (each implementation has its own head / tail steps); a quarter of it where nothing is implemented
+        fs = fill_structure_scenarios(rng, quick)
+        chk.extra["structural_fill_blt_executions"] = len(fs)
         chains = CHAINS
         # quick: everything under the full and the general-only chain; half of the sweeps under the two in between
-        per_chain = lambda ci: execs if (not quick or ci in (0, 3)) else execs[ci:nbase:2]
+        per_chain = lambda ci: (execs if (not quick or ci in (0, 3)) else execs[ci:nbase:2]) + (fs if ci < 3 else fs[::4])
     else:
         behs, r = tlc_behaviours(200 if quick else 4800, 11 if quick else 13, args.seed)
         chk.add_tlc(r, "behaviour generation (CompositeGen, -generate)")
@@ -1066,7 +1132,7 @@ def run(prop, args):
         execs += directed
         per_chain = lambda ci: execs[ci:nrand:2] + (directed if (ci == 0 or not quick) else [])
     chk.extra["executions_per_chain"] = {(c or "(all implementations)"): len(per_chain(i)) for i, c in enumerate(chains)}
-    by_name = {e[0][2:]: e for e in execs}
+    by_name = {e[0][2:]: e for ci in range(len(chains)) for e in per_chain(ci)}
 
     # 3. execute on the real library (built from /repo's working tree), one process per implementation chain
     exe, px = vf.build_driver(drv, "plain")
